@@ -29,7 +29,7 @@ from . import c12
 claim('C14', 'fault_enumeration',
       'exhaustive enumeration of the failing allocation index for every operation x prior state of the generator sets, on the real library and the real in-process bus, with state-unchanged / no-leak / retry-succeeds oracles',
       'Library: every construction program, dbus_message_copy, header edit, match-rule text and configuration file of the sets below is run once per allocation index k (first to last allocation of the operation) with that allocation failing. '
-      'Bus: every request of the alphabet (Hello, RequestName x 8 flag words, ReleaseName, AddMatch, RemoveMatch, unicast call, reply, broadcast with two recipients, disconnect-free) from every prior state of the history set is run once per index k on a fresh in-process bus. '
+      'Bus: every request of the alphabet (Hello, RequestName x 8 flag words, ReleaseName, AddMatch (also of a rule exercising quoting and escaping), RemoveMatch, unicast call, reply, broadcast with two recipients, disconnect-free) from every prior state of the history set is run once per index k on a fresh in-process bus. '
       'An injected run must either show the complete uninjected outcome, or report out-of-memory, leave the canonical state dump / message bytes equal to the pre-state, leave the count of outstanding blocks unchanged, and succeed when retried.',
       'Single failures only (pairs are not enumerated yet). Only dbus_malloc-family allocations of the code under test fail (clients are raw sockets). Disconnect handling is excluded (it is specified to retry).',
       'DESIGN.md section 4 C14')
